@@ -160,7 +160,7 @@ func parseRaces(txt string) []raceReport {
 func runX(t *testing.T, ch *vs.Choices, prop, tier string, render bool) *vs.RunOut {
 	out := &vs.RunOut{Reach: map[string]int{}}
 	b := gBias{MaxTasks: 6, PFail: 4, PIgnore: 10, PDedup: 40, PDefer: 8, PCall: 30, PLoop: 30, PGuard: 0, PDeps: 55, Parallel: true,
-		Concs: []int{0, 0, 2, 3}, Outputs: []string{"", "group", "prefixed"}, MaxInst: 50, FanIn: true, Matrix: true, DynVars: true}
+		Concs: []int{0, 0, 2, 3}, Outputs: []string{"", "group", "prefixed"}, MaxInst: 50, FanIn: true, Matrix: true, DynVars: true, Wildcards: true}
 	if tier == "thorough" {
 		b.MaxTasks, b.MaxInst = 9, 80
 	}
